@@ -74,19 +74,31 @@ theorem flatMap_congr_mem {α β : Type} (l : List α) (f g : α → List β) (h
     simp only [List.flatMap_cons]
     rw [hfg a (List.mem_cons_self ..), ih (fun x hx => hfg x (List.mem_cons_of_mem _ hx))]
 
-theorem skipWrapperArgs_suffix (l : List String) : ∃ j, skipWrapperArgs l = l.drop j := by
-  induction l with
-  | nil => exact ⟨0, rfl⟩
+theorem skipWrapperAux_suffix (fwa : List String) (b : Bool) (l : List String) : ∃ j, skipWrapperAux fwa b l = l.drop j := by
+  induction l generalizing b with
+  | nil => exact ⟨0, by cases b <;> rfl⟩
   | cons t ts ih =>
-    obtain ⟨j, hj⟩ := ih
-    unfold skipWrapperArgs
-    split
-    · exact ⟨j + 1, by simpa using hj⟩
-    · split
-      · exact ⟨j + 1, by simpa using hj⟩
+    cases b with
+    | true =>
+      obtain ⟨j, hj⟩ := ih false
+      exact ⟨j + 1, by simpa [skipWrapperAux] using hj⟩
+    | false =>
+      unfold skipWrapperAux
+      split
+      · obtain ⟨j, hj⟩ := ih false
+        exact ⟨j + 1, by simpa using hj⟩
       · split
-        · exact ⟨1, by simp⟩
-        · exact ⟨0, by simp⟩
+        · obtain ⟨j, hj⟩ := ih true
+          exact ⟨j + 1, by simpa using hj⟩
+        · split
+          · obtain ⟨j, hj⟩ := ih false
+            exact ⟨j + 1, by simpa using hj⟩
+          · split
+            · exact ⟨1, by simp⟩
+            · exact ⟨0, by simp⟩
+
+theorem skipWrapperArgs_suffix (fwa : List String) (l : List String) : ∃ j, skipWrapperArgs fwa l = l.drop j :=
+  skipWrapperAux_suffix fwa false l
 
 /-- a command none of whose word suffixes the new rule matches keeps its verdict *and reason* -/
 theorem simpleCmd_unmatched (rec : Rec) (n : Nat) (words : List String) (cwd : String) (r : Bool)
@@ -113,8 +125,10 @@ theorem simpleCmd_unmatched (rec : Rec) (n : Nat) (words : List String) (cwd : S
         split
         · split
           · rfl
-          · obtain ⟨j, hj⟩ := skipWrapperArgs_suffix (words.drop 1)
-            cases hs : skipWrapperArgs (words.drop 1) with
+          · have hwf : (withAllow w P pat).wrapperArgFlags = w.wrapperArgFlags := rfl
+            rw [hwf]
+            obtain ⟨j, hj⟩ := skipWrapperArgs_suffix (w.wrapperArgFlags (words.headD "")) (words.drop 1)
+            cases hs : skipWrapperArgs (w.wrapperArgFlags (words.headD "")) (words.drop 1) with
             | nil => rfl
             | cons a as =>
               simp only
